@@ -74,3 +74,17 @@ def json_expr(src):
 def json_expr_cases(src, args):
     f = json_expr(src)
     return [f(a) for a in args]
+
+
+def client_json_cases(src, args):
+    """GeophiresXResult.json_output_file_path of the current source on arbitrary output paths (no file is read)"""
+    from geophires_x_client.geophires_x_result import GeophiresXResult
+    out = []
+    for a in args:
+        r = GeophiresXResult.__new__(GeophiresXResult)
+        r.output_file_path = a
+        try:
+            out.append(str(r.json_output_file_path))
+        except ValueError:
+            out.append(None)
+    return out
